@@ -160,10 +160,13 @@ def cmd_check(args):
         pool = O.Pool(args.repo, workers, req_timeout=cfg.get("req_timeout", 600))
         seeds = O.run_seeds(base_seed, prop, n_runs)
         bad = []
+        known = load_known()
+        known_runs = []
 
         def on_result(msg):
+            # runs that end at an open, listed finding neither stop the batch nor use up its violation allowance
             if msg.get("violations"):
-                bad.append(msg)
+                (known_runs if match_known(known, prop, msg["violations"][0]) else bad).append(msg)
 
         results = O.batch(pool, profile.name, seeds, tier, budget, on_result=on_result,
                           stop_on_violation=bool(args.stop_first or args.mutant_mode),
@@ -198,8 +201,17 @@ def cmd_check(args):
             extra = dict(extra or {}, **sweep_info)
         if extra and extra.get("violations"):
             bad.extend(extra.pop("violations"))
+        # listed findings: one line each (the shortest run that reproduced it), no minimisation
+        by_finding = {}
+        for r in known_runs:
+            k = match_known(known, prop, r["violations"][0])
+            by_finding.setdefault(k["id"], (k, []))[1].append(r)
+        for fid, (k, rs) in sorted(by_finding.items()):
+            r0 = sorted(rs, key=lambda r: len(r["steps"]))[0]
+            path = write_replay(r0, prop) if not args.mutant_mode else "-"
+            print("KNOWN-FINDING: property=%s %s (replay=%s)" % (prop, k["what"], path))
+        extra = dict(extra or {}, known_findings_reproduced={fid: len(rs) for fid, (k, rs) in by_finding.items()})
         # group violations by oracle, minimise one of each
-        known = load_known()
         groups = {}
         for r in bad:
             groups.setdefault(r["violations"][0]["oracle"], []).append(r)
@@ -228,7 +240,8 @@ def cmd_check(args):
         if n_viol and rc == 0:
             rc = 1
         runs = sum(1 for r in results if "stats" in r)
-        print("%s %s: %d runs, %d violating, %d distinct oracle ids, %.1fs" % (prop, tier, runs, len(bad), len(groups), wall))
+        print("%s %s: %d runs, %d violating, %d distinct oracle ids, %s%.1fs" % (
+            prop, tier, runs, len(bad), len(groups), ("%d known findings, " % len(by_finding)) if by_finding else "", wall))
     except O.HarnessFailure as ex:
         print("HARNESS-ERROR: %s" % ex)
         rc = 2
